@@ -69,8 +69,15 @@ def check_ring_flag_tests(ck, prog, rule):
                     n += 1
                     ring = "SQ" if mentions(word[0], c.prov, lambda z: z[0] == "field" and z[2] == "submission_queue") else "CQ"
                     other = [x for x in sides if x is not word[0]]
-                    names = [z[2] for x in other for z in walk_deep(x, c.prov, limit=30) if z[0] == "const" and z[2]]
-                    if not names or not all(str(nm).split("::")[-1].startswith(f"IORING_{ring}_") for nm in names):
+                    consts = [z for x in other for z in walk_deep(x, c.prov, limit=30) if z[0] == "const" and z[2]]
+                    names = [z[2] for z in consts]
+                    # the uapi names of the ring's own bits; a local alias (`const NEED_WAKEUP: u32 = IORING_SQ_NEED_WAKEUP as u32`) is
+                    # accepted under the rest of that name with that value
+                    OWN = {"SQ": {"NEED_WAKEUP": 1, "CQ_OVERFLOW": 2, "TASKRUN": 4}, "CQ": {"EVENTFD_DISABLED": 1}}[ring]
+                    def own(z):
+                        last = str(z[2]).split("::")[-1]
+                        return last.startswith(f"IORING_{ring}_") or OWN.get(last.replace(f"{ring}_", "", 1) if last.startswith(f"{ring}_") else last) == z[1]
+                    if not consts or not all(own(z) for z in consts):
                         bad.append((p, c.site(b["id"]), names))
     ck.floor(rule, "tests of a ring's kernel flags word", n, 1)
     ck.ob(rule, "ring-flags-tested-with-the-rings-own-bits", not bad, fn=bad[0][0] if bad else None, site=bad[0][1] if bad else None,
@@ -302,8 +309,8 @@ def run_one(ck, prog):
         if not cpath.startswith(Q) or not isinstance(d.get("value"), int):
             continue
         short = cpath[len(Q):]
-        if "::" not in short:
-            continue
+        if "::" not in short or short.count("::") != 1:
+            continue        # Type::NAME only; a constant local to a function is seen where it is used
         n_flags += 1
         want = flags.get(short)
         if want is None:
